@@ -5,7 +5,7 @@
 # Prints one line "CONFIRM <name> ..." and removes the worktree with its build output.
 NAME=$1; DIFF=$2; DEMO=$3; CRATE=$4; shift 4; EXTRA="$@"
 WT=/var/tmp/confirm-$NAME
-rm -rf "$WT"; git -C /repo worktree prune; git -C /repo worktree add -q "$WT" main || exit 3
+rm -rf "$WT"; git -C /repo worktree prune; git -C /repo worktree add -q --detach "$WT" main || exit 3
 cd "$WT" || exit 3
 PKG=$(grep -m1 '^name' $CRATE/Cargo.toml | cut -d'"' -f2)
 mkdir -p $CRATE/tests; TEST=seed_demo_$(echo $NAME | tr -c 'A-Za-z0-9\n' '_'); cp "$DEMO" $CRATE/tests/$TEST.rs
